@@ -189,15 +189,12 @@ def own_apportionment(g, nblk, lens):
 
 
 # ---------------------------------------------------------------- monitors on one observed operation
-def guarded(ctx, site, icls, coords, call, witness, downstream_of_bad_apportion=False):
+def guarded(ctx, site, icls, coords, call, witness):
     """Affirmative-result policy (DESIGN 2.1: C18 promises a finite value for every valid input)."""
     del TRACE[:]
     try:
         return True, call()
     except Exception as e:
-        if downstream_of_bad_apportion:
-            ctx.raised(site + " (apportionment already reported unusable)", e)
-            return False, None
         ctx.raised(site, e)
         ctx.ok("C18.returns")
         ctx.violation("C18.returns", site, "raised %s" % type(e).__name__, icls,
@@ -232,12 +229,36 @@ def traced_partition(ctx, consumer, L, icls_app, coords, w):
     return "ok", runs, icls_bin
 
 
+def run_consumer(ctx, site, hookname, L, icls_app, coords, w, call):
+    """Run one operation that partitions internally (haplomat, _calc_haplomat, a problem constructor), then run the
+    partition monitors over the helper calls it made - also when it raised.  An exception downstream of an apportionment
+    or partition that the monitors have just reported invalid is a consequence of that root cause (counted as raised);
+    any other exception on a valid input is a violation (affirmative-result policy, DESIGN 2.1).
+    Returns (result or None, status, blocks, icls_bin)."""
+    del TRACE[:]
+    try:
+        res, exc = call(), None
+    except Exception as e:
+        res, exc = None, e
+    status, blocks, icls = traced_partition(ctx, hookname, L, icls_app, coords, w)
+    if exc is not None:
+        if status in ("bad-apportion", "bad-partition"):
+            ctx.raised(site + " (downstream of an apportionment/partition already reported invalid)", exc)
+        else:
+            ctx.raised(site, exc)
+            ctx.ok("C18.returns")
+            ctx.violation("C18.returns", site, "raised %s" % type(exc).__name__, icls if status == "ok" else icls_app,
+                          what="%s raised %s on a valid input: %s" % (site, type(exc).__name__, str(exc)[:160]), witness=w, coords=coords)
+        return None, status, blocks, icls
+    return res, status, blocks, icls
+
+
 def check_block_matrix(ctx, site, Hm, G, u, nblk, blocks, icls, coords, w, status="ok"):
     """finite -> conservation -> slots == block values (stops at the first failing link).  Returns oracle V or None.
     When the partition made during this very operation was already reported invalid (root cause keyed at haplobin /
     haplobin_bounds), the value clauses have no reference partition and are not evaluated: the consequences
     (unwritten slots) are only counted, so that one root cause does not fan out into a key per consumer and clause."""
-    if status == "bad-partition":
+    if status in ("bad-partition", "bad-apportion"):
         ctx.sumnote("value clauses not evaluated: partition of this operation already reported invalid")
         try:
             if not numpy.all(numpy.isfinite(numpy.asarray(Hm, dtype=float))):
@@ -344,11 +365,9 @@ def case_helpers(ctx, c):
             O.check_bounds(ctx, lab, bnd, "synthetic labels", coords, {})
     # -- haplomat
     w3 = dict(w, genomemat=G, u_a=u)
-    ok, Hm = guarded(ctx, "haplomat", icls_app, coords,
-                     lambda: H.haplomat(nblk, G.copy(), genpos.copy(), stix.copy(), spix.copy(), lens.copy(), u.copy()), w3,
-                     downstream_of_bad_apportion=not usable)
-    if ok:
-        status, blocks, icls_bin = traced_partition(ctx, "haplomat", L, icls_app, coords, w)
+    Hm, status, blocks, icls_bin = run_consumer(ctx, "haplomat", "haplomat", L, icls_app, coords, w3,
+                                                lambda: H.haplomat(nblk, G.copy(), genpos.copy(), stix.copy(), spix.copy(), lens.copy(), u.copy()))
+    if Hm is not None:
         check_block_matrix(ctx, "haplomat", Hm, G, u, nblk, blocks, icls_bin, coords, w3, status)
 
 
@@ -389,32 +408,15 @@ def case_problems(ctx, c):
     ploidy = nph
     sc = O.value_scale(u, ploidy); eps = O.tol(sc)
 
-    def guarded_build(site, call):
-        """Constructors re-run the apportionment; an unusable one (already reported) makes them raise."""
-        del TRACE[:]
-        try:
-            return call()
-        except Exception as e:
-            per = next((r for nm, a, r in TRACE if nm == "nhaploblk_chrom"), None)
-            bad = per is not None and (numpy.any(numpy.asarray(per) > L["lens"]) or int(numpy.sum(per)) != nblk)
-            if bad:
-                ctx.raised(site + " (apportionment already reported unusable)", e)
-            else:
-                ctx.raised(site, e); ctx.ok("C18.returns")
-                ctx.violation("C18.returns", site, "raised %s" % type(e).__name__, icls_app,
-                              what="%s raised %s on a valid input: %s" % (site, type(e).__name__, str(e)[:160]), witness=w, coords=coords)
-            return None
-
     # ------------------------------------------------ OHV
     MOHV = S["MOHV"]
     Mix = MOHV.OptimalHaploidValueSelectionProblemMixin
     nparent = int(g.integers(1, min(4, n) + 1))
     unique = bool(g.random() < 0.6)
-    Hm = guarded_build(defsite(Mix, "_calc_haplomat"), lambda: Mix._calc_haplomat(pg, mod, nblk))
-    V = blocks = None
+    site = defsite(Mix, "_calc_haplomat")
+    Hm, status, blocks, icls = run_consumer(ctx, site, site, L, icls_app, coords, w, lambda: Mix._calc_haplomat(pg, mod, nblk))
+    V = None
     if Hm is not None:
-        site = defsite(Mix, "_calc_haplomat")
-        status, blocks, icls = traced_partition(ctx, site, L, icls_app, coords, w)
         V = check_block_matrix(ctx, site, Hm, G, u, nblk, blocks, icls, coords, w, status)
     if V is not None:
         xmap = numpy.asarray(Mix._calc_xmap(n, nparent, unique))
@@ -437,11 +439,11 @@ def case_problems(ctx, c):
             cls = getattr(MOHV, "OptimalHaploidValue%sSelectionProblem" % kind)
             k = int(g.integers(1, min(ncfg, 4) + 1))
             args = subset_args(k, ncfg, t) if kind == "Subset" else vector_args(kind, ncfg, t)
-            site = "%s.from_pgmat_gpmod" % cls.__name__
-            p = guarded_build(site, lambda: cls.from_pgmat_gpmod(nparent=nparent, nhaploblk=nblk, unique_parents=unique, pgmat=pg, gpmod=mod, **args))
+            p, status, blocks2, icls2 = run_consumer(
+                ctx, defsite(cls, "from_pgmat_gpmod"), defsite(Mix, "_calc_haplomat"), L, icls_app, coords, w,
+                lambda: cls.from_pgmat_gpmod(nparent=nparent, nhaploblk=nblk, unique_parents=unique, pgmat=pg, gpmod=mod, **args))
             if p is None:
                 continue
-            status, blocks2, icls2 = traced_partition(ctx, defsite(Mix, "_calc_haplomat"), L, icls_app, coords, w)
             om = numpy.asarray(p.ohvmat); xm = numpy.asarray(p.decn_space_xmap)
             fin = ctx.check("C18.finite", bool(numpy.all(numpy.isfinite(om))), defsite(cls, "from_pgmat_gpmod"), "OHV finite", icls2,
                             witness=dict(wx, ohvmat=om), coords=coords)
@@ -476,10 +478,10 @@ def case_problems(ctx, c):
     cls = MOPV.OptimalPopulationValueSubsetSelectionProblem
     k = int(g.integers(1, n + 1))
     x = numpy.sort(g.choice(n, k, replace=False)).astype(int) if g.random() < 0.5 else g.choice(n, k, replace=False).astype(int)
-    p = guarded_build("%s.from_pgmat_gpmod" % cls.__name__, lambda: cls.from_pgmat_gpmod(nhaploblk=nblk, pgmat=pg, gpmod=mod, **subset_args(k, n, t)))
+    site = defsite(cls, "_calc_haplomat")
+    p, status, blocks, icls = run_consumer(ctx, defsite(cls, "from_pgmat_gpmod"), site, L, icls_app, coords, w,
+                                           lambda: cls.from_pgmat_gpmod(nhaploblk=nblk, pgmat=pg, gpmod=mod, **subset_args(k, n, t)))
     if p is not None:
-        site = defsite(cls, "_calc_haplomat")
-        status, blocks, icls = traced_partition(ctx, site, L, icls_app, coords, w)
         V = check_block_matrix(ctx, site, p.haplomat, G, u, nblk, blocks, icls, coords, w, status)
         if V is not None:
             site = defsite(cls, "latentfn")
@@ -497,11 +499,10 @@ def case_problems(ctx, c):
     MGB = S["MGB"]
     cls = MGB.GenotypeBuilderSubsetSelectionProblem
     nbest = 1 if g.random() < 0.4 else int(g.integers(1, k + 1))
-    p = guarded_build("%s.from_pgmat_gpmod" % cls.__name__,
-                      lambda: cls.from_pgmat_gpmod(pgmat=pg, gpmod=mod, nhaploblk=nblk, nbestfndr=nbest, **subset_args(k, n, t)))
+    site = defsite(cls, "_calc_haplomat")
+    p, status, blocks, icls = run_consumer(ctx, defsite(cls, "from_pgmat_gpmod"), site, L, icls_app, coords, w,
+                                           lambda: cls.from_pgmat_gpmod(pgmat=pg, gpmod=mod, nhaploblk=nblk, nbestfndr=nbest, **subset_args(k, n, t)))
     if p is not None:
-        site = defsite(cls, "_calc_haplomat")
-        status, blocks, icls = traced_partition(ctx, site, L, icls_app, coords, w)
         V = check_block_matrix(ctx, site, p.haplomat, G, u, nblk, blocks, icls, coords, w, status)
         if V is not None:
             site = defsite(cls, "latentfn")
